@@ -487,6 +487,24 @@ def check(threads, calls, default_call='body', unroll=0, functional=True, return
         act = [e for e in ev if e['tid'] >= 0 and z3.is_true(md.eval(e['guard'], model_completion=True))]
         act.sort(key=lambda e: (md.eval(e['clk'], model_completion=True).as_long(), e['id']))
         return ' '.join('T%d.%s:%s%s' % (e['tid'], e['kind'], e['loc'].split(':')[-1], ('=' + str(md.eval(e['val'], model_completion=True))) if e['loc'] not in abstract else '') for e in act)
+    # ---- query 0: every mutex a call takes is released by the end of that call (a leaked lock blocks every later caller;
+    #      such executions have no continuation in this encoding, so the balance is checked on the call that leaks)
+    leak = []
+    for i in infos:
+        for mloc in set(e['loc'] for e in i['seq'] if e['tag'] in ('lock', 'unlock')):
+            nl = z3.Sum([z3.If(e['guard'], 1, 0) for e in i['seq'] if e['tag'] == 'lock' and e['loc'] == mloc] + [z3.IntVal(0)])
+            nu = z3.Sum([z3.If(e['guard'], 1, 0) for e in i['seq'] if e['tag'] == 'unlock' and e['loc'] == mloc] + [z3.IntVal(0)])
+            leak.append(nl != nu)
+    out['lock_balance'] = 'unsat'
+    out['lock_witness'] = None
+    if leak:
+        S.push()
+        S.add(z3.Or(*leak))
+        r0 = S.check()
+        out['lock_balance'] = str(r0)
+        if r0 == z3.sat:
+            out['lock_witness'] = order(S.model())
+        S.pop()
     # ---- query 1: functional
     if functional:
         bad = [z3.Sum([z3.If(i['body_guard'], 1, 0) for i in infos]) != 1]
